@@ -51,7 +51,7 @@ func (c *Ctx) emitOp03(r opRun, m modeling.Mesh) {
 		c.Emit("c03.holds.changed_spec", r.name+" "+r.args+" "+out, "true")
 	}
 	switch r.name {
-	case "translate", "scale", "meshscale", "rotate", "applytrs", "center", "normalize":
+	case "translate", "scale", "meshscale", "rotate", "applytrs", "center", "normalize", "smoothnormals", "flatnormals", "laplacian":
 		// algorithm-independent value post-conditions (Props/C03Values.lean) on the implementation's output
 		c.Emit("c03.holds.post_spec", r.name+" "+r.args+" "+out, "true")
 	}
